@@ -8,8 +8,9 @@ from ginverif import tlc
 
 FOCUS = {
     'C14': lambda c: any(s['t'] == 'include' for d in c['files'].values() for s in d),
-    'C15': lambda c: c['skip']['mode'] != 'false' and any(s.get('sel') in ('u', 'w') or s.get('module') == 'gvmod_missing' or
-                                                          (s.get('val') or [None, None])[1] in ('u', 'w')
+    'C08': lambda c: any(s.get('sel') == 'h' or (s.get('val') or [None, None])[1] == 'h' for d in c['files'].values() for s in d),
+    'C15': lambda c: c['skip']['mode'] != 'false' and any(s.get('sel') in ('u', 'w', 'h') or s.get('module') == 'gvmod_missing' or
+                                                          (s.get('val') or [None, None])[1] in ('u', 'w', 'h')
                                                           for d in c['files'].values() for s in d),
     'C16': lambda c: c['result']['status'] != 'ok',
 }
@@ -25,10 +26,11 @@ def _c16_score(c):
   return len(c['result']['chain']) + 2 * after
 
 
-SCORE = {'C14': _c14_score, 'C15': lambda c: 0, 'C16': _c16_score}
+SCORE = {'C14': _c14_score, 'C15': lambda c: 0, 'C16': _c16_score, 'C08': lambda c: int(c['skip']['mode'] != 'false')}
 CLAUSES = {
     'C14': ('applied-statements', 'returned-tree', 'status', 'entry-point', 'location-chain', 'provenance', 'recorded-imports'),
     'C15': ('applied-statements', 'status', 'returned-tree', 'recorded-imports'),
+    'C08': ('applied-statements', 'status'),
     'C16': ('applied-statements', 'status', 'location-chain', 'provenance', 'restored', 'later-parse-as-fresh'),
 }
 
@@ -52,6 +54,11 @@ def run(prop, tier, rule):
   rep.rule = rule
   rep.assumptions = ['statements are rendered one per line (layout freedom is C03\'s subject)',
                      'search locations are temporary directories; the second reader serves files from memory']
+  run_into(rep, prop, tier)
+  return rep.finish()
+
+
+def run_into(rep, prop, tier, budget=None, only_focus=False):
   res = tlc.run('MC_GinParse', 'MC_Parse_quick.cfg' if tier == 'quick' else 'MC_Parse_thorough.cfg', timeout=3400)
   rep.add_tlc('MC_Parse', res, exhaustive=True)
   if res.violation or res.timed_out:
@@ -92,7 +99,9 @@ def run(prop, tier, rule):
   # focused cases first, then the rest, within the budget
   # focused cases first (deepest location chains first), then the rest, within the budget
   chosen.sort(key=lambda x: (not x[0], -x[2]))
-  budget = (900 if tier == 'quick' else 12000) + (250 if prop == 'C14' else 0)
+  budget = budget or ((900 if tier == 'quick' else 12000) + (250 if prop == 'C14' else 0))
+  if only_focus:
+    chosen = [x for x in chosen if x[0]]
   try:
     for i, (foc, c, _) in enumerate(chosen[:budget]):
       rep.evaluations += 1
@@ -130,7 +139,6 @@ def run(prop, tier, rule):
     c = foc[0]
     rep.sample(dict(kind='file store + skip_unknown form exported by TLC, materialised and parsed by gin',
                     root=P.render(c['files']['root'], 0), a=P.render(c['files']['a'], 0), skip=c['skip'], spec_result=c['result']['status']))
-  return rep.finish()
 
 
 def replay(prop, path):
